@@ -126,9 +126,10 @@ Hit(a) == /\ obj[a].k = "ant" /\ ~obj[a].hit
           /\ obj' = [obj EXCEPT ![a].hit = TRUE]
           /\ last' = [op |-> "Hit", a |-> a]
 
-Clear(i) == /\ IsDet(i)
+(* clear(reset_noise): every antenna below i is cleared, and every one of them is told the same reset_noise *)
+Clear(i, reset) == /\ IsDet(i)
             /\ obj' = [n \in 1..Len(obj) |-> IF n \in Ants(i) THEN [obj[n] EXCEPT !.hit = FALSE] ELSE obj[n]]
-            /\ last' = [op |-> "Clear", a |-> i]
+            /\ last' = [op |-> "Clear", a |-> i, reset |-> reset]
 
 (* strings reached by a build call on i, and the strings a combined detector asks for their own trigger *)
 RECURSIVE Strings(_)
@@ -186,7 +187,7 @@ Next == \/ On("NewAnt") /\ \E ab \in BOOLEAN : NewAnt(ab)
         \/ On("IPlus") /\ \E i, j \in 1..Len(obj) : IPlus(i, j)
         \/ On("Sum3") /\ \E i, j, m \in 1..Len(obj) : Sum3(i, j, m)
         \/ On("Hit") /\ \E a \in 1..Len(obj) : Hit(a)
-        \/ On("Clear") /\ \E i \in 1..Len(obj) : Clear(i)
+        \/ On("Clear") /\ \E i \in 1..Len(obj), reset \in BOOLEAN : Clear(i, reset)
         \/ On("Build") /\ \E i \in 1..Len(obj), K \in BuildKws : Build(i, K)
         \/ On("Triggered") /\ \E i \in 1..Len(obj), mc \in BOOLEAN, K \in TrigKws : Triggered(i, mc, K)
 Spec == Init /\ [][Next]_vars
